@@ -409,7 +409,7 @@ pub fn graph_dump(db: &Db) -> J {
                         props.push(json!([k, tvv, c]));
                     }
                 }
-                rels.push(json!({"src": e.src, "type": t, "tcp": cps(&t), "dst": e.dst, "props": props}));
+                rels.push(json!({"src": e.src, "type": t, "tcp": cps(&t), "dst": e.dst, "props": props, "dead": false}));
             }
         }
         let mut inn = Vec::new();
